@@ -1,7 +1,9 @@
 ---- MODULE Coalescer_Trace ----
 (***************************************************************************)
 (* C31 - validation of recorded behaviours of the real state.Coalescer.     *)
-(* One record = one case on one coalescer with window r.w (microseconds):   *)
+(* One record = one case on one coalescer with window r.w (the effective     *)
+(* window in whole microseconds: 0 for a zero or negative duration, a        *)
+(* fraction of a microsecond dropped - so r.w <= real window < r.w + 1):      *)
 (*   strobes[i] = [t0, t1, ret]   Strobe() calls, issued one after another   *)
 (*   recvs[j]   = [t0, t1, got]   receive attempts on Signals() by the single*)
 (*                                consumer, in order; got = FALSE: nothing   *)
@@ -16,6 +18,9 @@
 (* before b(k) = t1 and that disarms timer i, so it fired not after         *)
 (* Latest(i) (also bounded by the return of Terminate).  A timer whose      *)
 (* Earliest exceeds its Latest cannot have fired.  Slowness of the machine  *)
+(* For r.w = 0 every strobe's timer can fire at once: Coalesces only counts   *)
+(* (no more signals than strobes), AtMostOne and NoLoss are unchanged - a     *)
+(* signal is demanded Slack after any strobe.  Slowness of the machine        *)
 (* only moves Latest up and receipts later: it can make the check more      *)
 (* lenient, never stricter.  A signal is demanded only Slack (2 s) after    *)
 (* the window.                                                              *)
@@ -73,7 +78,7 @@ Ctx(r) ==
       coalesces |-> /\ \A j \in 1..NSig : C31_Coalesces(BestQuiet(j), r.w, Eps)
                     /\ Greedy(1, 0, FALSE),
       buffered |-> IF Greedy(1, 0, FALSE) /\ ~Greedy(1, 0, TRUE) THEN 2 ELSE 1,
-      noloss |-> \A k \in DOMAIN R : R[k].got \/ C31_NoLoss(OwedFor(k), r.w, Slack),
+      noloss |-> \A k \in DOMAIN R : R[k].got \/ C31_NoLoss(OwedFor(k), r.w + 1, Slack),
       demands |-> Cardinality({k \in DOMAIN R : R[k].got /\ R[k].t1 - R[k].t0 > r.w \div 2})]
 
 \* Strobe (a rendezvous with a loop that never blocks for long) and Terminate come back
